@@ -72,6 +72,10 @@ pub mod time {
     impl Instant {
         pub fn now() -> Self { Instant(super::NOW_NS.with(|c| c.get())) }
     }
+    impl std::ops::Add<Duration> for Instant {
+        type Output = Instant;
+        fn add(self, d: Duration) -> Instant { Instant(self.0 + d.as_nanos() as u64) }
+    }
     impl std::ops::Sub for Instant {
         type Output = Duration;
         fn sub(self, o: Instant) -> Duration { Duration::from_nanos(self.0 - o.0) }
